@@ -252,7 +252,8 @@ for _op in API_AUTO_OPS:
 class _MExprParser:
     """Reads the text `MDD.to_expr` returns into the abstract chain the model produces and prints
     it canonically: `[var:j.j?then;else]`, `!e`, `1`, `0`, `#` (end of a chain); the branches of
-    one chain sorted by their smallest value, the values of a branch sorted."""
+    one chain sorted by their LARGEST value (the order of the last occurrences of the distinct
+    successors, which is what the model's `dedup` keeps), the values of a branch sorted."""
 
     def __init__(self, text):
         self.s = text
@@ -319,7 +320,7 @@ class _MExprParser:
                 if self.peek(', '):
                     self.eat(', ')
             self.eat(')')
-            branches.sort(key=lambda b: min(b[0]))
+            branches.sort(key=lambda b: max(b[0]))
             out = '#'
             for vals, e in reversed(branches):
                 out = '[' + var + ':' + '.'.join(map(str, sorted(vals))) + '?' + e + ';' + out + ']'
